@@ -203,6 +203,9 @@ fn enter_sandbox(dir: &str) -> Result<(), String> {
     if !seam::redirect_stdio_to_capture_files() {
         return Err("cannot create the stdout/stderr capture files".into());
     }
+    // (the worker is single-threaded here)
+    std::env::set_var("TMPDIR", seam::SIM_TMP);
+    seam::reset_sim_tmp();
     Ok(())
 }
 
